@@ -282,6 +282,39 @@ pub struct Built {
     pub roots: Vec<(String, Ledger)>,
 }
 
+/// "Hot" variant: before the roots are applied the pool gets three initialised rewards (not emitting) and its five free-running
+/// accumulators (fee growth A/B, reward growth 0..2) are preset to values whose EVERY byte is non-zero, two of them a few
+/// thousand units below 2^128. Every tick initialised at or below the current price copies them into its growth-outside
+/// fields, so all 113 bytes of an initialised tick carry information: byte-shuffling, truncation or stale-byte faults of the
+/// tick codecs cannot hide behind zero padding, and the accumulators wrap during ordinary histories.
+pub fn build_hot_with_roots(spec: &StdSpec, roots: &[(&'static str, Vec<Op>)]) -> Built {
+    use crate::decode::pool_off as po;
+    let (mut l, w) = world::build_std(spec);
+    let auth = w.cfg.reward_emissions_super_authority;
+    for i in 0..3u8 {
+        let mint = svm::keys::key(&format!("{}/hot-rmint{i}", spec.label));
+        world::create_spl_mint(&mut l, mint, 6, None);
+        world::must("init_reward (hot world)", svm::process(&mut l, &world::ix_init_reward(&w.pool, auth, w.funder, mint, world::TOKEN, i, i != 1)));
+    }
+    let vals: [u128; 5] = [
+        0xA1A2_A3A4_A5A6_A7A8_A9AA_ABAC_ADAE_AFB1,
+        u128::MAX - 4_321,
+        0xC1C2_C3C4_C5C6_C7C8_C9CA_CBCC_CDCE_CFD1,
+        0x0102_0304_0506_0708_090A_0B0C_0D0E_0F11 | (0xF7u128 << 120),
+        u128::MAX - 77_777,
+    ];
+    l.patch(&w.pool.addr, |d| {
+        d[po::FEE_GROWTH_A..po::FEE_GROWTH_A + 16].copy_from_slice(&vals[0].to_le_bytes());
+        d[po::FEE_GROWTH_B..po::FEE_GROWTH_B + 16].copy_from_slice(&vals[1].to_le_bytes());
+        for i in 0..3 {
+            let o = po::REWARDS + i * po::REWARD_LEN + 112;
+            d[o..o + 16].copy_from_slice(&vals[2 + i].to_le_bytes());
+        }
+    });
+    let rs = roots.iter().map(|(n, seq)| (n.to_string(), apply_all(&l, &w, seq))).collect();
+    Built { name: spec.label.clone(), w, roots: rs }
+}
+
 pub fn build_with_roots(spec: &StdSpec, roots: &[(&'static str, Vec<Op>)]) -> Built {
     let (l, w) = world::build_std(spec);
     let rs = roots.iter().map(|(n, seq)| (n.to_string(), apply_all(&l, &w, seq))).collect();
